@@ -33,7 +33,22 @@ try:
 finally:
     sh("git -C /repo worktree remove --force %s" % scratch)
 res["checks"] = {}
-if res.get("patch_applies") and res.get("suite_ok"):
+if res.get("patch_applies") and res.get("suite_ok") and os.environ.get("MUTANT_SCRATCH"):
+    # /repo is busy: check a scratch worktree of HEAD with the rewrite applied
+    chk = wt + "-check"
+    sh("git -C /repo worktree remove --force %s" % chk)
+    sh("git -C /repo worktree add -q --detach %s HEAD" % chk)
+    try:
+        sh("git apply %s" % patch, chk)
+        for k in range(1, 21):
+            p = "C%02d" % k
+            r = subprocess.run("./check %s quick" % p, shell=True, cwd="/verif", env=dict(env, VERIF_REPO=chk, VERIF_WORK_SUFFIX="-scratch"),
+                               capture_output=True, text=True)
+            out = r.stdout + r.stderr
+            res["checks"][p] = {"exit": r.returncode, "lines": [l for l in out.splitlines() if l.startswith("VIOLATION") or l.startswith("  ")][:4]}
+    finally:
+        sh("git -C /repo worktree remove --force %s" % chk)
+elif res.get("patch_applies") and res.get("suite_ok"):
     rc, out = sh("git -C /repo status --short")
     assert out.strip() == "", "/repo not clean"
     sh("git -C /repo apply %s" % patch)
